@@ -3,6 +3,7 @@ import re
 from engine.rulelib import *
 from engine import tables
 from rules.c16 import FactOutcomes, fact_of
+from rules import c10
 
 EXPLANATION = (
     "Values of wrapped blobs and derived keys and their conformance to RFC 3394/5649, PKCS#1, PKCS#8 are runtime statements and are NOT decided (not claimed). Decided are structural necessary conditions. "
@@ -292,6 +293,110 @@ def r6_caller_iv(ctx, prog):
                 r.ok(q, site, 'IV of %d bytes copied from pParameter' % BLOCK[mech], file=f['file'], line=hits[0][0])
 
 
+# --------------------------------------------------------------------------------------- R8: padding check covers every padding byte
+def linform(e, env=None):
+    """Linear form {symbol: coeff, 1: const} of an integer expression tree (+, -, literals, variables, size()); None if not linear."""
+    k = e.get('k')
+    if k == 'Lit':
+        return {1: e.get('v', 0)}
+    if k == 'Var':
+        return {e['name']: 1}
+    if k in ('Paren', 'Cast') and e.get('e') is not None:
+        return linform(e['e'])
+    if k == 'Bin' and e.get('op') in ('+', '-'):
+        a, b = linform(e['a']), linform(e['b'])
+        if a is None or b is None:
+            return None
+        out = dict(a)
+        for s_, c in b.items():
+            out[s_] = out.get(s_, 0) + (c if e['op'] == '+' else -c)
+        return {s_: c for s_, c in out.items() if c != 0 or s_ == 1}
+    if k == 'Call':
+        return {canon(e): 1}
+    return None
+
+
+def lsub(a, b):
+    out = dict(a)
+    for s_, c in b.items():
+        out[s_] = out.get(s_, 0) - c
+    return {s_: c for s_, c in out.items() if c != 0}
+
+
+def subst(form, sym, repl):
+    """form[sym := repl]"""
+    out = {s_: c for s_, c in form.items() if s_ != sym}
+    k = form.get(sym, 0)
+    for s_, c in repl.items():
+        out[s_] = out.get(s_, 0) + k * c
+    return {s_: c for s_, c in out.items() if c != 0}
+
+
+def r8_unpad_coverage(ctx, prog):
+    r = ctx.rule('C13.R8', 'PKCS#7 unpadding compares every padding byte: the checked index range is [len - pad, len - 1] (the last byte, which defines pad, may be left out)', floor=1, engine='E8 index ranges')
+    f = prog.fn('SoftHSM::RFC5652Unpad')
+    ctx.analysed(f)
+    buf = param_name(f, 0)
+    # len = size(buf), pad = buf[len-1]
+    lenv = padv = None
+    for n in walk(f['body']):
+        if n.get('k') == 'Decl':
+            for d in n['decls']:
+                i = d.get('init')
+                if i is None:
+                    continue
+                if canon(i) == 'size(%s)' % buf:
+                    lenv = d['var']['name']
+                elif lenv and canon(i) in ('operator[](%s,(%s-1))' % (buf, lenv), '%s[(%s-1)]' % (buf, lenv)):
+                    padv = d['var']['name']
+    loops = [n for n in walk(f['body']) if n.get('k') in ('For', 'While')]
+    site = 'padding loop'
+    if not lenv or not padv or len(loops) != 1 or loops[0].get('k') != 'For':
+        r.undecided(f['qname'], site, 'the shape len=size(buf); pad=buf[len-1]; one for-loop was not found (len=%s pad=%s loops=%d)' % (lenv, padv, len(loops)), file=f['file'], line=f['line'])
+        return
+    lp = loops[0]
+    try:
+        d = lp['init']['decls'][0] if lp['init'].get('k') == 'Decl' else None
+        iv = d['var']['name'] if d else lp['init']['e']['a']['name']
+        start = linform(d['init'] if d else lp['init']['e']['b'])
+        c = lp['c']
+        assert c.get('k') == 'Bin' and c['op'] in ('<', '<=') and c['a'].get('k') == 'Var' and c['a']['name'] == iv
+        end = linform(c['b'])              # exclusive bound for <
+        if c['op'] == '<=':
+            end = dict(end)
+            end[1] = end.get(1, 0) + 1
+        inc = canon(lp['inc'])
+        assert inc in ('++%s' % iv, '%s++' % iv, '(%s+=1)' % iv)
+        idx = [x['args'][0] if x.get('k') == 'Call' else x['idx'] for x in walk(lp['body'])
+               if (x.get('k') == 'Call' and short(x.get('callee')) == 'operator[]' and x.get('recv') is not None and canon(x['recv']) == buf) or (x.get('k') == 'Index' and canon(x['base']) == buf)]
+        cmp_ok = any(x.get('k') == 'Bin' and x.get('op') in ('!=', '==') and padv in canon(x) and buf in canon(x) for x in walk(lp['body']))
+        rej = any(x.get('k') == 'Return' and canon(x.get('e')) in ('false', '0') for x in walk(lp['body']))
+        assert idx and cmp_ok and rej
+        fi = linform(idx[0])
+        assert start is not None and end is not None and fi is not None and abs(fi.get(iv, 0)) == 1
+    except (AssertionError, KeyError, TypeError, IndexError):
+        r.undecided(f['qname'], site, 'the loop is not of the form for (i = a; i < b; i++) with a comparison of %s[f(i)] against %s that rejects' % (buf, padv), file=f['file'], line=lp.get('l'))
+        return
+    last = dict(end)
+    last[1] = last.get(1, 0) - 1
+    e1, e2 = subst(fi, iv, start), subst(fi, iv, last)          # index at the first and at the last iteration
+    lo_want = {lenv: 1, padv: -1}
+    hi_want_min = {lenv: 1, 1: -2}
+    cands = [(e1, e2), (e2, e1)]
+    ok = False
+    for lo, hi in cands:
+        dlo, dhi = lsub(lo, lo_want), lsub(hi, hi_want_min)
+        if set(dlo) <= {1} and set(dhi) <= {1} and dlo.get(1, 0) <= 0 and dhi.get(1, 0) >= 0:
+            ok = True
+    def show(fm):
+        return ' '.join('%+d*%s' % (c, s_) if s_ != 1 else '%+d' % c for s_, c in sorted(fm.items(), key=str)) or '0'
+    if ok:
+        r.ok(f['qname'], site, 'indices %s .. %s cover [len-pad, len-2]' % (show(e1), show(e2)), file=f['file'], line=lp['l'])
+    else:
+        r.violation(f['qname'], site, 'the loop inspects the indices from %s to %s (len=%s, pad=%s), which does not cover [len-pad, len-2]: a blob whose padding is malformed in an uninspected byte is accepted and a key object is created from it' % (
+            show(e1), show(e2), lenv, padv), file=f['file'], line=lp['l'])
+
+
 def run(ctx):
     po = ctx.prog('ossl-file')
     pb = ctx.prog('botan-file')
@@ -301,9 +406,13 @@ def run(ctx):
     r4_truncation(ctx, po)
     r5_check_values(ctx, po)
     r6_caller_iv(ctx, po)
+    c10.r3_stripped_length(ctx, [('ossl-file', po), ('botan-file', pb)], rule_id='C13.R7')
+    r8_unpad_coverage(ctx, po)
 
 
 MUTANTS = [
+    dict(name='unpad-skips-first-padding-byte', rule='C13.R8', file='src/lib/SoftHSM.cpp', after='bool SoftHSM::RFC5652Unpad(',
+         old='\tfor(auto i = wrappedlen-padbyte; i<wrappedlen; i++)', new='\tfor(auto i = wrappedlen-padbyte+1; i<wrappedlen; i++)'),
     dict(name='wrap-aes-cbc-blocksize-zero', rule='C13.R6', file='src/lib/SoftHSM.cpp', after='CK_RV SoftHSM::WrapKeySym',
          old='\t\tcase CKM_AES_CBC:\n\t\t\tblocksize = 16;\n', new='\t\tcase CKM_AES_CBC:\n'),
     dict(name='unwrap-creates-despite-failure', rule='C13.R1', file='src/lib/SoftHSM.cpp', after='CK_RV SoftHSM::C_UnwrapKey',
